@@ -6,7 +6,8 @@
 (* Lines: Reset, Paths (binds the driver's request enumeration to the      *)
 (* spec's and checks the real path.Clean), Tab (one grant table: the       *)
 (* decision bitmask of every request resource), Node (single-carrier       *)
-(* tables with arbitrary privilege bitmasks), ApiRes / DbRes (resource     *)
+(* tables with arbitrary privilege bitmasks), Key (a grant whose key is a   *)
+(* dirty path), ApiRes / DbRes (resource                                   *)
 (* names), Rand (seeded deeper tables), HttpReqs / Http (filter chain).    *)
 (*                                                                         *)
 (* Verdict level: the Check(..) conjuncts - the properties of Auth.tla     *)
@@ -79,7 +80,7 @@ ExplainTricks(d) ==
 TricksOK(d) == \A i \in 1..NAbs : d[i] = d[NormIdx[i]]
 ImplOK(a, t, d) == LET id == TLCEval(ImplDec(a, t)) IN \A i \in 1..NReq : d[i] = id[i]
 
-Zero == [paths |-> 0, ntab |-> 0, atab |-> 0, node |-> 0, api |-> 0, db |-> 0, rand |-> 0, hreqs |-> 0, http |-> 0]
+Zero == [paths |-> 0, ntab |-> 0, atab |-> 0, node |-> 0, key |-> 0, api |-> 0, db |-> 0, rand |-> 0, hreqs |-> 0, http |-> 0]
 Bump(f) == cnt' = [cnt EXCEPT ![f] = @ + 1]
 
 TrInit ==
@@ -134,6 +135,21 @@ TrNode ==
           /\ adm' = FALSE /\ tab' = t /\ last' = r
           /\ Bump("node")
     /\ UNCHANGED <<dec, hcfg, rq>>
+
+(* a table given with a dirty key: NewUser stores the grant under the       *)
+(* normalised path (a relative key can never match an absolute resource)    *)
+TrKey ==
+    /\ IsEv("Key") /\ cnt.paths = 1
+    /\ LET i == Ln.i
+           t == IF ReqAbs(i) THEN (AbsPathSeq[NormIdx[i]] :> {"read"}) ELSE EmptyTab
+           r == 3 * TotalRanks + i
+       IN /\ Check("universe-key", i \in 1..NReq /\ r > last /\ Ln.key = ReqPath(i) /\ Ln.abs = ReqAbs(i) /\ Ln.keystr = ReqString(i) /\ Len(Ln.dec) = NReq)
+          /\ Check("GrantKeyNormalised", ReqAbs(i) => Ln.stored = <<Render(AbsPathSeq[NormIdx[i]])>>)
+          /\ Check("NearestGrantDecides", NearestOK(FALSE, t, Ln.dec) \/ (ExplainNearest(FALSE, t, Ln.dec) /\ FALSE))
+          /\ Check("TricksNeverWiden", TricksOK(Ln.dec) \/ (ExplainTricks(Ln.dec) /\ FALSE))
+          /\ Drift("decision-table", ImplOK(FALSE, t, Ln.dec))
+          /\ last' = r
+    /\ Bump("key") /\ Keep
 
 (* auth.APIResource = the normalised "/api" + p *)
 ApiNameSeq == TLCEval(StringsUpTo(ApiAlphabet, MaxApiLen))
@@ -232,7 +248,7 @@ TrHttp ==
           /\ Bump("http")
     /\ UNCHANGED <<adm, dec, rq>>
 
-TrNext == TrReset \/ TrPaths \/ TrTab \/ TrNode \/ TrApiRes \/ TrDbRes \/ TrRand \/ TrHttpReqs \/ TrHttp
+TrNext == TrReset \/ TrPaths \/ TrTab \/ TrNode \/ TrKey \/ TrApiRes \/ TrDbRes \/ TrRand \/ TrHttpReqs \/ TrHttp
 TrSpec == TrInit /\ [][TrNext]_tvars
 
 HW == IF l > TLCGet(1) THEN TLCSet(1, l) /\ TLCSet(2, cnt) ELSE TRUE
@@ -244,7 +260,7 @@ DirectComplete(c) ==
     /\ c.paths = 1
     /\ c.ntab = PartTables(MaxGranted)
     /\ c.atab = PartTables(AdminMaxGranted)
-    /\ (PartK = 1 => c.node = NG * (FullMask + 1) /\ c.api = 1 /\ c.db = 1 /\ c.rand = NRandom)
+    /\ (PartK = 1 => c.node = NG * (FullMask + 1) /\ c.key = NReq /\ c.api = 1 /\ c.db = 1 /\ c.rand = NRandom)
     /\ c.http = 0
 HttpComplete(c) ==
     /\ c.hreqs = 1
@@ -258,7 +274,7 @@ AcceptedDirect ==
     /\ LET c == TLCGet(2) IN
        IF Replaying THEN TRUE
        ELSE IF DirectComplete(c)
-       THEN PrintT(<<"C20-PART-OK", "direct", PartK, PartN, c.ntab + c.atab + c.node, (c.ntab + c.atab + c.node) * NReq * NP>>)
+       THEN PrintT(<<"C20-PART-OK", "direct", PartK, PartN, c.ntab + c.atab + c.node + c.key, (c.ntab + c.atab + c.node + c.key) * NReq * NP>>)
        ELSE PrintT(<<"C20-INCOMPLETE", "direct", PartK, PartN, c>>) /\ FALSE
 AcceptedHttp ==
     /\ HWAccepted
